@@ -122,7 +122,7 @@ def run(chk):
             # m >= 3 contains (n0 + n1 x)/(d0 + d1 x) and with it the straight lines
             if f is not None and qk == 'between' and ((kind in ('linear', 'rational') and m >= 3) or (kind == 'recip' and m >= 2)):
                 t = f(x)
-                if abs(val - t) > 1e-6 * max(1.0, abs(t)):
+                if not abs(val - t) <= 1e-6 * max(1.0, abs(t)):
                     chk.violation('rfi-' + kind, 'rfi (m=%d, n=%d) does not reproduce a %s dependence: got %r want %r' % (m, n, kind, val, t), [lines[idx]])
                 else:
                     chk.count('rfi_reproduces_' + kind)
